@@ -28,6 +28,20 @@ package sessions
 //@ ensures[hash-match-with-session-nonce] result <==> ite(s.Nonce == nil, "", hashOf(bytes(s.Nonce))) == hashed
 
 // ------------------------------------------------------------------ C02: encoding is encryption
+// ------------------------------------------------------------------ C10: compression is lossless whatever the content
+// (stream ghosts and the lz4 round-trip axiom: contracts/stdlib.spec)
+//@ func lz4Compress
+//@ safety
+//@ prop C10
+//@ ensures[compressed-form-of-the-whole-payload] ret1 == nil ==> bytes(ret0) == lz4enc(bytes(payload))
+//@ ensures[failures-give-no-data] ret1 != nil ==> ret0 == nil
+
+//@ func lz4Decompress
+//@ safety
+//@ prop C10
+//@ ensures[the-whole-decompressed-stream] ret1 == nil ==> bytes(ret0) == lz4dec(bytes(compressed))
+//@ ensures[failures-give-no-data] ret1 != nil ==> ret0 == nil
+
 //@ func (*SessionState).EncodeSessionState
 //@ prop C02
 //@ ensures[output-is-cipher-output] ret1 == nil ==> (called(Encrypt#0) && ret0 == ret0(Encrypt#0) && ret1(Encrypt#0) == nil && recv(Encrypt#0) == c)
